@@ -56,6 +56,11 @@ def run_demo(demos):
         env = dict(ENV)
         if 'testing/synctest' in open(f).read():
             env['GOTOOLCHAIN'] = 'go1.26.8'
+        if os.path.exists(os.path.join(src, 'go.work')):
+            # the demonstration must see the worktree's hseq/pure instead of the cached module versions
+            open(os.path.join(wt, 'go.work'), 'w').write('go 1.22\n\nuse (\n\t./hseq\n\t./optics\n\t./pure\n)\n')
+            env['GOFLAGS'] = ''
+            env['GOWORK'] = os.path.join(wt, 'go.work')
         if pkgdir.startswith('internal/'):
             st, rel = stage_internal(pkgdir)
             dst = os.path.join(st, rel, 'zz_seed_demo_test.go')
@@ -67,6 +72,9 @@ def run_demo(demos):
             shutil.copy(f, dst)
             rc, out = sh("go test -vet=off -count=1 -run '%s' ." % pat, cwd=os.path.join(wt, pkgdir), env=env)
             os.remove(dst)
+            for extra in ('go.work', 'go.work.sum'):
+                if os.path.exists(os.path.join(wt, extra)):
+                    os.remove(os.path.join(wt, extra))
         ok = ok and rc == 0
         outs.append(out[-1200:])
     return ok, '\n'.join(outs)
